@@ -18,6 +18,7 @@
 From Coq Require Import ZArith List Bool Sorting.Sorted.
 From ScV Require Import Base.CInt C15.RangesModel C15.RangesGaps C15.RangesInvert C15.RangesCompute C15.RangesDecode
   C15.RangesAdaptive C15.RangesProps.
+From ScV Require Import Gen.RangesC15 C15.RangesGen.
 Import ListNotations.
 Local Open Scope Z_scope.
 
@@ -177,3 +178,173 @@ Example C15_ex_adaptive :
 Proof.
   cbv zeta. split; [intros v [<-|[<-|[<-|[<-|[]]]]]; reflexivity|]. vm_compute. repeat split.
 Qed.
+
+(* ===== tie T1: the model computes what the definitions GENERATED from /repo/src/sc_ranges.c compute ========================= *)
+(* Gen/RangesC15.v is regenerated from the working tree on every run (tools/c2g/groups_C15.py); an edit of the arithmetic in
+   sc_ranges.c changes a generated definition and the statements below stop checking.  ok_z x: -2^29 <= x <= 2^29. *)
+
+(* the unused-entry constants: what every slot is initialised with and what the evicted last slot is cleared to is the model's (-1, -2) *)
+Theorem C15_gen_unused : compute_unused = UNUSED /\ compute_evict_clear = UNUSED.
+Proof. exact gen_unused. Qed.
+Print Assumptions C15_gen_unused.
+
+(* first_peer > last_peer: no peers *)
+Theorem C15_gen_empty : forall fp lp, compute_empty fp lp = (lp <? fp).
+Proof. exact gen_empty. Qed.
+Print Assumptions C15_gen_empty.
+
+(* the generated test `!procs[j] || j == rank` is the negation of the model's is_peer *)
+Theorem C15_gen_skip : forall procs rank j, compute_skip (proc procs j) j rank = negb (is_peer procs rank j).
+Proof. exact gen_skip. Qed.
+Print Assumptions C15_gen_skip.
+
+(* the peers the model walks over are the j the generated test does not skip *)
+Theorem C15_gen_peers : forall procs rank, peers procs rank = filter (fun j => negb (compute_skip (proc procs j) j rank)) (zseq (length procs)).
+Proof. exact gen_peers. Qed.
+Print Assumptions C15_gen_peers.
+
+(* lastw = num_ranges - 1, prev = -1 *)
+Theorem C15_gen_init : forall nr, ok_z nr -> compute_init nr = (nr - 1, -1).
+Proof. exact gen_init. Qed.
+Print Assumptions C15_gen_init.
+
+(* the gap test prev < j - 1 *)
+Theorem C15_gen_gap_test : forall p q, ok_z p -> ok_z q -> compute_gap_test p q = (p <? q - 1).
+Proof. exact gen_gap_test. Qed.
+Print Assumptions C15_gen_gap_test.
+
+(* the claimed empty range (prev + 1, j - 1) *)
+Theorem C15_gen_gap_claim : forall p q, ok_z p -> ok_z q -> compute_gap_claim p q = (p + 1, q - 1).
+Proof. exact gen_gap_claim. Qed.
+Print Assumptions C15_gen_gap_claim.
+
+(* its length as the code computes it is the model's glen *)
+Theorem C15_gen_gap_length : forall p q, ok_z p -> ok_z q -> compute_gap_length p q = glen (p + 1, q - 1).
+Proof. exact gen_gap_length. Qed.
+Print Assumptions C15_gen_gap_length.
+
+(* one step of the model's gaps_of written with the generated test and range *)
+Theorem C15_gen_gaps_of_step : forall p q r, ok_z p -> ok_z q ->
+  gaps_of (p :: q :: r) = (if compute_gap_test p q then [compute_gap_claim p q] else []) ++ gaps_of (q :: r).
+Proof. exact gen_gaps_of_step. Qed.
+Print Assumptions C15_gen_gaps_of_step.
+
+(* nwin = i + 1 *)
+Theorem C15_gen_nwin : forall i, ok_z i -> compute_nwin i = i + 1.
+Proof. exact gen_nwin. Qed.
+Print Assumptions C15_gen_nwin.
+
+(* the comparison that decides which slot is the shortest: length hi - lo + 1, STRICTLY below the shortest so far *)
+Theorem C15_gen_evict_step : forall lo hi i best bl, ok_z lo -> ok_z hi ->
+  compute_evict_step lo hi i best bl = if glen (lo, hi) <? bl then (i, glen (lo, hi)) else (best, bl).
+Proof. exact gen_evict_step. Qed.
+Print Assumptions C15_gen_evict_step.
+
+(* the start values of the scan: nwin = lastw, no slot, length num_procs + 1 *)
+Theorem C15_gen_evict_init : forall lastw np, ok_z np -> compute_evict_init lastw np = (lastw, -1, np + 1).
+Proof. exact gen_evict_init. Qed.
+Print Assumptions C15_gen_evict_init.
+
+(* the model's scan = the generated step folded over the slots, for EVERY slot list *)
+Theorem C15_gen_shortest_from : forall l, Forall ok_pair l -> forall i best bl, shortest_from l i best bl = shortest_gen l i best bl.
+Proof. exact gen_shortest_from. Qed.
+Print Assumptions C15_gen_shortest_from.
+
+(* the model's `shortest` = generated start values + generated step *)
+Theorem C15_gen_shortest : forall np l lastw, ok_z np -> Forall ok_pair l ->
+  shortest np l = let '(_, b0, bl0) := compute_evict_init lastw np in shortest_gen l 0 b0 bl0.
+Proof. exact gen_shortest. Qed.
+Print Assumptions C15_gen_shortest.
+
+(* the model's eviction written with the generated definitions (scan, move test, moved slot, cleared slot) *)
+Theorem C15_gen_evict : forall np l, ok_z np -> Forall ok_pair l -> ok_z (Z.of_nat (length l)) ->
+  evict np l =
+  let '(lastw, _) := compute_init (Z.of_nat (length l)) in
+  let '(_, b0, bl0) := compute_evict_init lastw np in
+  let s := shortest_gen l 0 b0 bl0 in
+  if compute_evict_move_test s lastw
+  then removelast (set_nth (Z.to_nat s) (compute_evict_move (fst (last l compute_evict_clear)) (snd (last l compute_evict_clear))) l)
+  else removelast l.
+Proof. exact gen_evict. Qed.
+Print Assumptions C15_gen_evict.
+
+(* a new gap goes into slot |slots|; the generated test nwin == num_ranges triggers the eviction *)
+Theorem C15_gen_add_gap : forall np nr slots g, ok_z (Z.of_nat (length slots)) ->
+  add_gap np nr slots g =
+  let l := slots ++ [g] in if compute_full (compute_nwin (Z.of_nat (length slots))) nr then evict np l else l.
+Proof. exact gen_add_gap. Qed.
+Print Assumptions C15_gen_add_gap.
+
+(* empty range (s, e) -> the range before ends at s - 1, the next starts at e + 1 *)
+Theorem C15_gen_invert_step : forall s e, ok_z s -> ok_z e -> compute_invert_step s e = (e + 1, s - 1).
+Proof. exact gen_invert_step. Qed.
+Print Assumptions C15_gen_invert_step.
+
+(* one step of the model's invert written with the generated step *)
+Theorem C15_gen_invert_cons : forall first last s e r, ok_z s -> ok_z e ->
+  invert first last ((s, e) :: r) = let '(lo_i, hi_im1) := compute_invert_step s e in (first, hi_im1) :: invert lo_i last r.
+Proof. exact gen_invert_cons. Qed.
+Print Assumptions C15_gen_invert_cons.
+
+(* the last range ends at last_peer, the first starts at first_peer, nwin is incremented *)
+Theorem C15_gen_invert_nil : forall first last nwin, ok_z nwin ->
+  invert first last [] = [(fst (compute_invert_first first nwin), compute_invert_last last)] /\
+  snd (compute_invert_first first nwin) = nwin + 1.
+Proof. exact gen_invert_nil. Qed.
+Print Assumptions C15_gen_invert_nil.
+
+(* the model's sc_ranges_compute with the generated no-peers test and unused constants *)
+Theorem C15_gen_ranges_compute : forall procs rank fp lp nr, ranges_compute procs rank fp lp nr =
+  let n := Z.to_nat nr in
+  if compute_empty fp lp then (0, repeat compute_unused n)
+  else let rs := invert fp lp (isort (kept_gaps procs rank nr)) in
+       (Z.of_nat (length rs), rs ++ repeat compute_evict_clear (n - length rs)).
+Proof. exact gen_ranges_compute. Qed.
+Print Assumptions C15_gen_ranges_compute.
+
+(* offset of a rank's row in global_ranges *)
+Theorem C15_gen_row_offset : forall mr j, 0 <= mr <= RB -> 0 <= j -> 2 * mr * j <= RB ->
+  decode_row_recv mr j = 2 * mr * j /\ decode_row_send mr j = 2 * mr * j.
+Proof. exact gen_row_offset. Qed.
+Print Assumptions C15_gen_row_offset.
+
+(* receivers: self is excluded, everybody else is appended *)
+Theorem C15_gen_recv_body : forall j rank nr, ok_z nr ->
+  decode_recv_body j rank nr = if j =? rank then (0, 0, nr, 0) else (1, j, nr + 1, 0).
+Proof. exact gen_recv_body. Qed.
+Print Assumptions C15_gen_recv_body.
+
+(* the model's filter over the candidates = the generated body applied to every candidate *)
+Theorem C15_gen_recv_scan : forall js rank, filter (fun j => negb (j =? rank)) js = recv_scan_gen js rank.
+Proof. exact gen_recv_scan. Qed.
+Print Assumptions C15_gen_recv_scan.
+
+(* the candidates of a range: from the generated start value while the generated condition holds *)
+Theorem C15_gen_recv_range : forall lo hi j, In j (zrange lo hi) <-> decode_recv_first lo <= j /\ decode_recv_cond j hi = true.
+Proof. exact gen_recv_range. Qed.
+Print Assumptions C15_gen_recv_range.
+
+(* one row entry of the model's receiver list with the generated end-of-row test, bounds and body *)
+Theorem C15_gen_row_receivers : forall lo hi r rank, row_receivers ((lo, hi) :: r) rank =
+  if decode_recv_stop lo then [] else recv_scan_gen (zrange (decode_recv_first lo) hi) rank ++ row_receivers r rank.
+Proof. exact gen_row_receivers. Qed.
+Print Assumptions C15_gen_row_receivers.
+
+(* senders: the membership test of one entry: end of row / rank <= hi / rank >= lo, in this order *)
+Theorem C15_gen_send_body : forall lo hi q j ns, ok_z ns ->
+  decode_send_body lo hi q j ns =
+  if lo <? 0 then (0, 0, ns, 1)
+  else if q <=? hi then (if lo <=? q then (1, j, ns + 1, 1) else (0, 0, ns, 1))
+  else (0, 0, ns, 0).
+Proof. exact gen_send_body. Qed.
+Print Assumptions C15_gen_send_body.
+
+(* the model's row_has = the scan of the row with the generated body, for EVERY row *)
+Theorem C15_gen_row_has : forall row q j, row_has row q = row_has_gen row q j.
+Proof. exact gen_row_has. Qed.
+Print Assumptions C15_gen_row_has.
+
+(* the model's sender list with the generated self-exclusion and membership test *)
+Theorem C15_gen_senders : forall tbl rank, senders tbl rank = filter (fun j => negb (decode_send_self j rank) && row_has_gen (row_of tbl j) rank j) (zseq (length tbl)).
+Proof. exact gen_senders. Qed.
+Print Assumptions C15_gen_senders.
